@@ -74,6 +74,19 @@ theorem hilbert_parts_monotone (idxs positions : List Nat) :
     rw [(perm_sortAsc positions).length_eq] at this
     omega
 
+/-- `weighted_quantiles` (as modelled, refinement loop included): whenever the loop ends,
+the returned positions are sorted and there are exactly `n - 1` of them – so the ids of
+`partition_indexed` are monotone along the curve and below `part_count = n`. -/
+theorem quantiles_result_sorted (fuel : Nat) (idxs : List Nat) (ws : List Float) (n : Nat) (hn : 1 ≤ n)
+    (pos : List Nat) (h : Hilbert.quantiles fuel idxs ws n = some pos) :
+    pos.Pairwise (· ≤ ·) ∧ pos.length = n - 1 ∧
+    (∀ a b, a ≤ b → (bsearch pos a).idx ≤ (bsearch pos b).idx) ∧
+    (∀ x ∈ Hilbert.assign idxs pos, x < n) := by
+  obtain ⟨h1, h2⟩ := Hilbert.quantiles_sorted_len fuel idxs ws n pos h
+  refine ⟨h1, h2, fun a b hab => bsearch_idx_mono pos h1 hab, fun x hx => ?_⟩
+  have := assign_lt idxs pos x hx
+  omega
+
 /-- The design asked for a witness that an *unsorted* split vector breaks monotonicity
 (`quantiles_unsorted_counterexample`).  That statement is FALSE of Rust 1.95's
 `binary_search_by`: its branch-free loop (no early exit on `Equal`, `base` only moves
@@ -255,6 +268,7 @@ end Coupe.Sfc
 #print axioms Coupe.Sfc.assign_lt
 #print axioms Coupe.Sfc.sorted_of_sort
 #print axioms Coupe.Sfc.hilbert_parts_monotone
+#print axioms Coupe.Sfc.quantiles_result_sorted
 #print axioms Coupe.Sfc.bsearch_monotone_on_any_slice
 #print axioms Coupe.Sfc.ZCurve.chunk_monotone
 #print axioms Coupe.Sfc.ZCurve.chunk_lt
